@@ -292,12 +292,18 @@ func levelsGen(r *rand.Rand, n int, small bool) []Case {
 			// table names are reused (0-0, 0-1, … again once a compaction has emptied L0): rounds of same-shaped tables
 			// (same users, two-digit timestamps, plain values: equal block offsets and lengths) with a compaction between
 			// the rounds and no lookup in between — anything remembered about a table by its name is stale afterwards
-			users = users[:1+r.Intn(len(users))]
-			if len(users) > 2 {
+			// (a compaction runs when a level holds more tables than its target: n tables against a target of n-1; L0 tables
+			// are compacted together when their key ranges overlap the first one's)
+			sort.Strings(users)
+			split := len(users) >= 3 && r.Intn(3) > 0
+			if split {
+				// the middle user lives alone in the last table of every round, the outer two in the tables before it
+				users = []string{users[1], users[0], users[len(users)-1]}
+			} else if len(users) > 2 {
 				users = users[:2]
 			}
 			n := 2 + r.Intn(2)
-			ops[0] = fmt.Sprintf("lm %d %d %d 0", n, 1+r.Intn(3), []int{200, 4096}[r.Intn(2)])
+			ops[0] = fmt.Sprintf("lm %d %d %d 0", n-1, 1+r.Intn(3), []int{200, 4096}[r.Intn(2)])
 			low = 0
 			plain := func(ts int) bool {
 				for _, u := range users {
@@ -316,11 +322,16 @@ func levelsGen(r *rand.Rand, n int, small bool) []Case {
 				return ts - 1
 			}
 			rounds := 2 + r.Intn(2)
+			// variant: the last table of every round holds one user of its own, the tables before it hold the others — the
+			// first lookup after the reuse then goes straight to the last-named table (the bloom filters skip the rest)
 			for rd := 0; rd < rounds; rd++ {
 				for i := 0; i < n; i++ {
 					t := next()
 					var pairs [][2]any
-					for _, u := range users {
+					for j, u := range users {
+						if split && (j == 0) != (i == n-1) {
+							continue
+						}
 						pairs = append(pairs, [2]any{u, t})
 					}
 					ops = append(ops, "flush "+sortedEntries(pairs))
@@ -330,6 +341,11 @@ func levelsGen(r *rand.Rand, n int, small bool) []Case {
 				}
 			}
 			maxTs = ts + 1
+			// newest first: the very first lookup after the last round asks for the newest version of the first user
+			ops = append(ops, fmt.Sprintf("get %s %d", hxs(users[0]), maxTs))
+			for _, u := range users {
+				ops = append(ops, fmt.Sprintf("get %s %d", hxs(u), maxTs))
+			}
 			queries()
 			tags["table-name-reuse-same-shape"] = true
 			steps = 0
